@@ -188,7 +188,8 @@ func loadAmmoUnbounded(P *Prog, c *Ctx) bool {
 
 func runC14(c *Ctx) {
 	c.Rule("O14.7", "an entry means the same on every pass and in both modes: it is decoded into storage made for it, so its tag - what chosencases filters by - does not depend on the entry read before it (the rule of O7.6, shared); streaming re-decodes the file on every pass while preload decodes it once")
-	c.Borrow("C07", runC07, map[string]string{"O7.6": "O14.7"})
+	c.Rule("O14.9", "an entry keeps its own headers while the rest of the file is read: preload decodes the whole file before anything is delivered, so an entry's header map must be its own (fresh, or never mutated) - not the decoder's running [Header: value] accumulator, directly or as returned by a merge helper; otherwise every preloaded entry carries the headers that stand at the end of the file while the streaming path delivers them as they stood at the entry (the rule of O7.5, shared)")
+	c.Borrow("C07", runC07, map[string]string{"O7.6": "O14.7", "O7.5": "O14.9"})
 	c.Rule("O14.1", "both paths end the same way: neither the streaming arm nor the preload arm of the http provider's Run may return the limit/pass sentinels")
 	c.Rule("O14.2", "the chosencases filter precedes the limit count: a function that skips entries failing IsChosenCase and enforces a limit must count only entries that passed the filter; a decoder that already counts entries must run without limit when a filter is configured")
 	c.Rule("O14.3", "both paths apply the same filter: IsChosenCase(ammo.Tag(), Config.ChosenCases)")
